@@ -20,14 +20,14 @@ THEOREM_MODULES = ["Yarel.Props.C15", "Yarel.Props.C09", "Yarel.Props.SpecReuse"
 REQUIRED_THEOREMS = ["execute_depends_on_persistent_only", "runSnippet_depends_on_persistent_only", "residue_fresh", "residue_fresh_after_any_run", "reset_eq_new", "execute_dual"]
 # the state the models abstract is all the state there is: the fields of the run-time structures, regenerated on every run, are the ones
 # the models were written against (Props/StateInventory)
-THEOREM_MODULES.append("Yarel.Props.StateInventory")
+THEOREM_MODULES.append("Yarel.Props.StateInventory.state_of_interpreter_and_fiber")
 REQUIRED_THEOREMS += ['state_of_interpreter_and_fiber']
 # who writes the state the mechanism models are about: the set of write sites per group of fields, regenerated on every run (Props/StateWrites)
-THEOREM_MODULES.append("Yarel.Props.StateWrites")
+THEOREM_MODULES.append("Yarel.Props.StateWrites.writers_of_reuse_state")
 REQUIRED_THEOREMS += ['writers_of_reuse_state']
 # what a run starts from and what reset restores, as written on this run (Props/GlueText)
-THEOREM_MODULES.append("Yarel.Props.GlueText")
-REQUIRED_THEOREMS += ['reset_as_modelled', 'reset_stack_as_modelled', 'execute_as_modelled', 'module_lookup_as_modelled']
+THEOREM_MODULES.append("Yarel.Props.GlueText.C15")
+REQUIRED_THEOREMS += ['reset_as_modelled', 'reset_stack_as_modelled', 'execute_as_modelled', 'module_as_modelled']
 LEVEL = "proof"
 ASSUMPTIONS = [
     "residue = (exception-in-flight flag, class definition in progress, active fiber's stack/frames/handlers, fiber designators) as "
